@@ -54,7 +54,9 @@ fn hash_ipv4_flow(ip_packet: &[u8], num_workers: usize) -> usize {
     }
 
     // IPv4 header is variable length (IHL field)
-    let ihl = (ip_packet[0] & 0x0F) as usize;
+    // An IHL below 5 is invalid; the packet decoder then places the TCP header after the 20 fixed
+    // bytes, so the ports are taken from there (and never from inside the IP header).
+    let ihl = ((ip_packet[0] & 0x0F) as usize).max(5);
     let ip_header_len = ihl.saturating_mul(4);
 
     if ip_packet.len() < ip_header_len.saturating_add(4) {
